@@ -49,7 +49,7 @@ _CODEC_RULE = ("codec suite: per case a message of one of 13 types is produced (
 _CODEC_ASSUME = ["tinylib/msgp read primitives as modelled in lean/FluentVerif/Msgp/Read.lean (validated by this correspondence only)",
                  "stream path exercised over a non-seekable reader (a network connection); inputs declaring 32-bit lengths/counts "
                  "beyond the input are run in a child process (slice path) or skipped (stream path)"]
-_CODEC_SUITE = dict(suite='codec', n=dict(quick=3000, thorough=1500), shards=dict(quick=1, thorough=16),
+_CODEC_SUITE = dict(suite='codec', n=dict(quick=3000, thorough=4000), shards=dict(quick=1, thorough=16),
                     trivial=r'^(-|.*\.skip)$')
 
 PROPS['C13'] = dict(
@@ -89,7 +89,7 @@ _RT_RULE = ("rt suite: a caller-built value of one of 13 message kinds (tags of 
             "unencodable leaf; options nil/empty/every subset) is encoded by MarshalMsg (onto a non-empty prefix) "
             "and by msgp.Encode through a Writer, and each encoding is decoded by UnmarshalMsg and DecodeMsg: 4 "
             "lines per value. distinct = distinct (op,args); non-trivial = every executed line")
-_RT_SUITE = dict(suite='rt', n=dict(quick=1500, thorough=1500), shards=dict(quick=1, thorough=16), trivial=r'^-$')
+_RT_SUITE = dict(suite='rt', n=dict(quick=1500, thorough=4000), shards=dict(quick=1, thorough=16), trivial=r'^-$')
 
 PROPS['C01'] = dict(
     lean_modules=['FluentVerif.Props.C01'],
@@ -135,7 +135,7 @@ PROPS['C02'] = dict(
     assumptions=_CODEC_ASSUME,
 )
 
-_CHUNK_SUITE = dict(suite='chunk', n=dict(quick=4000, thorough=8000), shards=dict(quick=1, thorough=16), trivial=r'^(-|chunk\.m\.other\..*)$')
+_CHUNK_SUITE = dict(suite='chunk', n=dict(quick=4000, thorough=12000), shards=dict(quick=1, thorough=16), trivial=r'^(-|chunk\.m\.other\..*)$')
 
 PROPS['C11'] = dict(
     lean_modules=['FluentVerif.Props.C11'],
@@ -206,7 +206,7 @@ _PACKED_RULE = ("packed suite: histories of 3..10 constructor / packer calls in 
                 "re-compared after every later call; compressed streams are decompressed by compress/gzip with Multistream(false) "
                 "and an exact-EOF check. packedconc: 8 goroutines x 200 packed/compressed messages built concurrently and "
                 "re-verified at the end. distinct = distinct (op,args); non-trivial = constructor / packer lines")
-_PACKED_SUITES = [dict(suite='packed', n=dict(quick=250, thorough=250), shards=dict(quick=1, thorough=16), trivial=r'^(-|hist\.(HRESET|PRIME)\..*)$'),
+_PACKED_SUITES = [dict(suite='packed', n=dict(quick=250, thorough=600), shards=dict(quick=1, thorough=16), trivial=r'^(-|hist\.(HRESET|PRIME)\..*)$'),
                   dict(suite='packedconc', n=dict(quick=3, thorough=40), shards=dict(quick=1, thorough=4), trivial=r'^-$')]
 
 PROPS['C03'] = dict(
